@@ -3970,6 +3970,16 @@ class LoopNode(ActionSinkNode, ActionSourceNode):
                 if transition.target in sub_dfa.accepting_states:
                     raise IllegalDFAStateConflictsError("Ambigious loop: should loop or continue matching", transition)
 
+        # ... and that no symbol both continues the body from an accepting state and starts the body again
+        loop_start = sub_dfa.starting_state
+        for accept_state in sub_dfa.accepting_states:
+            if accept_state is loop_start:
+                continue
+            for symbol in accept_state.local_alphabet() | loop_start.local_alphabet() | {DFTransition.Else}:
+                continues, restarts = accept_state[symbol], loop_start[symbol]
+                if continues is not None and restarts is not None and not continues.error_handling and not restarts.error_handling:
+                    raise IllegalDFAStateConflictsError("Ambigious loop: should loop or continue matching", continues, restarts)
+
         # If there are error-handling transitions on the accept node, point them to the starting node as fallthrough (so that anything that _isn't_ getting matched by 
         # the last node gets forwarded to the start, looping). If there are no transitions on the final node, point everything to the start.
         for accept_state in sub_dfa.accepting_states:
